@@ -503,6 +503,11 @@ func (t *tr) applyContract(con *Contract, ct *callTarget, haveRecv bool, recv Te
 			t.assume(t.spec(cl.Expr, sc2))
 		}
 	}
+	// vacuity guard: the assumed postcondition must be satisfiable here (a contradiction with the callee's frame
+	// or with the caller's knowledge would make everything after the call vacuously provable)
+	if len(con.clauses("ensures"))+len(con.clauses("ghost_ensures"))+len(con.clauses("always_ensures")) > 0 && len(t.guard) == 0 {
+		t.cover("after-call/"+lastName(ct.key), pos)
+	}
 	if len(con.clauses("ghost_ensures")) > 0 {
 		t.V.note("ghost_ensures on " + con.Key + ": call-history instrumentation (call counter / last result), assumed at call sites")
 	}
